@@ -2211,6 +2211,7 @@ impl<'bump, T: 'bump> Vec<'bump, T> {
         Splice {
             drain: self.drain(range),
             replace_with: replace_with.into_iter(),
+            bump: PhantomData,
         }
     }
 }
@@ -2584,6 +2585,9 @@ impl<'a, 'bump, T> FusedIterator for Drain<'a, 'bump, T> {}
 pub struct Splice<'a, 'bump, I: Iterator + 'a + 'bump> {
     drain: Drain<'a, 'bump, I::Item>,
     replace_with: I,
+    /// Unlike a plain `Drain`, dropping a `Splice` allocates in the vector's
+    /// bump arena, so it must be neither `Send` nor `Sync` (`Bump: !Sync`).
+    bump: PhantomData<&'bump Bump>,
 }
 
 impl<'a, 'bump, I: Iterator> Iterator for Splice<'a, 'bump, I> {
